@@ -173,8 +173,9 @@ func dirArtifactStatus(
 	}
 
 	// Any child Artifact that's out-of-date or not committed will flip this
-	// value.
-	status.ContentsMatch = true
+	// value. A directory that was never committed, or whose manifest is
+	// missing from the cache, is never up-to-date -- not even if it's empty.
+	status.ContentsMatch = status.HasChecksum && status.ChecksumInCache
 	status.ChildrenStatus = make(map[string]*artifact.Status)
 
 	var manifest directoryManifest
